@@ -13,6 +13,7 @@ import TypedpyModel.Lemmas.SchemaWf
 import TypedpyModel.Lemmas.SchemaExact
 import TypedpyModel.Lemmas.SchemaDialect
 import TypedpyModel.Lemmas.SchemaDefs
+import TypedpyModel.Lemmas.SchemaRename
 namespace Typedpy.C08
 open Typedpy Typedpy.Sch
 
@@ -62,6 +63,28 @@ theorem schema_admits_partial (O : Oracles) (S : String → String → Bool)
   unfold schemaAccepts
   rw [(dialect_fix_is_emit_true cls).1]
   exact admits_class O S hS (fixedPtrDefs cls) cls x j n hfrag hrefs hn hreg hser
+
+/-- **schema_admits under a key-renaming `_serialization_mapper` (partial).**  `km` is the
+    string-valued key map of the top-level class's mapper (`mapper[key]` when it is a `str`).  Under
+    the hypotheses of `schema_admits_partial` plus the decidable `renameSafe` (the key map is
+    injective on the field names and the keys of the document, and the exported `required` is the
+    image of the required names) the schema exported WITH the mapper, after the dialect rewrite,
+    accepts the serialization written WITH the mapper. -/
+theorem schema_admits_renamed_partial (O : Oracles) (S : String → String → Bool)
+    (hS : ∀ p s, O.reMatch p s = true → S p s = true) (km : KeyMap) (cls : FieldDecl) (x j : PyVal) (n : Nat)
+    (hfrag : inSchemaFragment cls = true)
+    (hrefs : ClassRefsFaithful (fixedPtrDefs cls) cls)
+    (hn : refDepth cls ≤ n)
+    (hreg : inAdmitRegion O cls x = true)
+    (hser : serialize O cls x = .ok j)
+    (hsafe : renameSafe km cls j = true) :
+    jsValidFuel n (fixedPtrDefs cls) S (dialectFix (classSchemaM false km cls)) (renameDoc km j) = true := by
+  rw [c08_fix_classSchemaM]
+  exact c08_admits_class_renamed O S hS (fixedPtrDefs cls) km cls x j n hfrag hrefs hn hreg hser hsafe
+
+/-- the empty key map is the mapper-free class (same properties, same `required` up to order) -/
+theorem renamed_dialect_fix (km : KeyMap) (cls : FieldDecl) :
+    dialectFix (classSchemaM false km cls) = classSchemaM true km cls := c08_fix_classSchemaM km cls
 
 /-- the region of `schema_admits_partial` contains only well-formed instances of the class -/
 theorem region_instances_wellformed (O : Oracles) (cls : FieldDecl) (x : PyVal)
@@ -347,6 +370,32 @@ theorem counterexample_unique_items :
       (.inst "K" [("u", .list [.tuple [.int 1], .list [.int 1]])]) = false
     ∧ verdict (flat "K" ["u"] [("u", .seqAny .list { uniq := true }), ("b", .boolean)])
       (.inst "K" [("u", .list [.tuple [.int 1], .list [.int 1]])]) = false := by decide
+def exKm : KeyMap := [("a", "b"), ("i", "inner"), ("t", "T.t")]
+
+/-- a swap-free rename including one onto a dotted key, on the class of `schema_admits_example` -/
+theorem admits_renamed_example :
+    (match serialize exO exCls exVal with
+     | .ok j => renameSafe exKm exCls j
+         && jsValidFuel 2 (fixedPtrDefs exCls) exS (dialectFix (classSchemaM false exKm exCls)) (renameDoc exKm j)
+         && !jsValidFuel 2 (fixedPtrDefs exCls) exS (dialectFix (classSchemaM false exKm exCls)) j
+     | .error _ => false) = true := by decide
+
+def chainCls : FieldDecl := flat "K" ["a"] [("a", .integer {}), ("b", .integer {})]
+def chainKm : KeyMap := [("a", "b"), ("b", "c")]
+
+/-- finding `admits:mapper-required-renamed-in-place`: `_serialization_mapper = {"a": "b", "b": "c"}` with
+    only `a` required: the code renames `required` in place while it walks the fields, so `a`'s entry,
+    already renamed to `b`, is renamed again to `c` when field `b` comes: the schema requires `c` (the key
+    of the optional field) and not `b`; `K(a=1)` serializes to `{"b": 1}`, which the schema rejects -/
+theorem counterexample_mapper_required_in_place :
+    inSchemaFragment chainCls = true
+    ∧ inAdmitRegion anyO chainCls (.inst "K" [("a", .int 1)]) = true
+    ∧ requiredFaithful chainKm { name := "K", required := ["a"], accepts := ["K"] } [] ["a", "b"] = false
+    ∧ (match serialize anyO chainCls (.inst "K" [("a", .int 1)]) with
+       | .ok j => jsValidFuel 0 (fixedPtrDefs chainCls) anyS (dialectFix (classSchemaM false chainKm chainCls))
+                    (renameDoc chainKm j)
+       | .error _ => true) = false := by decide
+
 /-- finding `exact:positional-shorter`: positional `Tuple` / `Array` items carry no `minItems`, so
     a shorter array is admitted by the schema and rejected by the Deserializer -/
 theorem counterexample_exact_positional_shorter :
